@@ -1,0 +1,87 @@
+// +build verif
+
+// Copyright 2021 TiKV Project Authors.
+//
+// Licensed under the Apache License, Version 2.0 (the "License");
+// you may not use this file except in compliance with the License.
+// You may obtain a copy of the License at
+//
+//     http://www.apache.org/licenses/LICENSE-2.0
+//
+// Unless required by applicable law or agreed to in writing, software
+// distributed under the License is distributed on an "AS IS" BASIS,
+// See the License for the specific language governing permissions and
+// limitations under the License.
+
+package syncer
+
+import (
+	"github.com/pingcap/kvproto/pkg/pdpb"
+	"github.com/tikv/pd/server/core"
+	"github.com/tikv/pd/server/kv"
+)
+
+// This file only exports unexported entry points of the region syncer for the external
+// verification harness (build tag `verif`).  It adds no behaviour.
+
+// VerifHistoryBuffer exposes the unexported history buffer.
+type VerifHistoryBuffer = historyBuffer
+
+// VerifDefaultFlushCount is the flush interval of the history index.
+const VerifDefaultFlushCount = defaultFlushCount
+
+// VerifMaxSyncRegionBatchSize is the batch size of a full synchronisation.
+const VerifMaxSyncRegionBatchSize = maxSyncRegionBatchSize
+
+// VerifHistoryKey is the key under which the history index is persisted.
+const VerifHistoryKey = historyKey
+
+// NewVerifHistoryBuffer calls newHistoryBuffer.
+func NewVerifHistoryBuffer(size int, base kv.Base) *VerifHistoryBuffer {
+	return newHistoryBuffer(size, base)
+}
+
+// VerifFirstIndex calls firstIndex under the read lock.
+func (h *historyBuffer) VerifFirstIndex() uint64 {
+	h.RLock()
+	defer h.RUnlock()
+	return h.firstIndex()
+}
+
+// VerifLen calls len under the read lock.
+func (h *historyBuffer) VerifLen() int {
+	h.RLock()
+	defer h.RUnlock()
+	return h.len()
+}
+
+// VerifGet calls get under the read lock.
+func (h *historyBuffer) VerifGet(index uint64) *core.RegionInfo {
+	h.RLock()
+	defer h.RUnlock()
+	return h.get(index)
+}
+
+// VerifHistory returns the syncer's history buffer.
+func (s *RegionSyncer) VerifHistory() *VerifHistoryBuffer {
+	return s.history
+}
+
+// VerifSetHistorySize replaces the history buffer by one of the given capacity on the same kv
+// (NewRegionSyncer always uses defaultHistoryBufferSize).
+func (s *RegionSyncer) VerifSetHistorySize(size int) {
+	s.history = newHistoryBuffer(size, s.server.GetStorage().GetRegionStorage())
+}
+
+// VerifSyncHistoryRegion calls syncHistoryRegion.
+func (s *RegionSyncer) VerifSyncHistoryRegion(request *pdpb.SyncRegionRequest, stream pdpb.PD_SyncRegionsServer) error {
+	return s.syncHistoryRegion(request, stream)
+}
+
+// VerifHasStream reports whether a stream is bound under the name.
+func (s *RegionSyncer) VerifHasStream(name string) bool {
+	s.mu.RLock()
+	defer s.mu.RUnlock()
+	_, ok := s.mu.streams[name]
+	return ok
+}
